@@ -18,6 +18,7 @@ package generic
 
 import (
 	"fmt"
+	"io"
 	// "unicode/utf8"
 	"unsafe"
 
@@ -54,12 +55,35 @@ func (self Node) Len() (int, error) {
 	return self.len()
 }
 
+// errShortNode reports a node holding fewer bytes than its type needs
+func errShortNode() Node {
+	return errNode(meta.ErrRead, "", io.EOF)
+}
+
+// strSize returns the length prefix of a STRING node, checked against the node's bytes
+func (self Node) strSize() (int, bool) {
+	if self.l < 4 {
+		return 0, false
+	}
+	size := int(thrift.BinaryEncoding{}.DecodeInt32(rt.BytesFrom(self.v, 4, 4)))
+	if size < 0 || size > self.l-4 {
+		return 0, false
+	}
+	return size, true
+}
+
 func (self Node) len() (int, error) {
 	switch self.t {
 	case thrift.LIST, thrift.SET:
+		if self.l < 5 {
+			return -1, errShortNode()
+		}
 		b := rt.BytesFrom(unsafe.Pointer(uintptr(self.v)+uintptr(1)), 4, 4)
 		return int(thrift.BinaryEncoding{}.DecodeInt32(b)), nil
 	case thrift.MAP:
+		if self.l < 6 {
+			return -1, errShortNode()
+		}
 		b := rt.BytesFrom(unsafe.Pointer(uintptr(self.v)+uintptr(2)), 4, 4)
 		return int(thrift.BinaryEncoding{}.DecodeInt32(b)), nil
 	default:
@@ -90,6 +114,9 @@ func (self Node) Byte() (byte, error) {
 func (self Node) byte() (byte, error) {
 	switch self.t {
 	case thrift.BYTE:
+		if self.l < 1 {
+			return 0, errShortNode()
+		}
 		return byte(thrift.BinaryEncoding{}.DecodeByte(rt.BytesFrom(self.v, int(self.l), int(self.l)))), nil
 	default:
 		return 0, errNode(meta.ErrUnsupportedType, "", nil)
@@ -107,6 +134,9 @@ func (self Node) Bool() (bool, error) {
 func (self Node) bool() (bool, error) {
 	switch self.t {
 	case thrift.BOOL:
+		if self.l < 1 {
+			return false, errShortNode()
+		}
 		return thrift.BinaryEncoding{}.DecodeBool(rt.BytesFrom(self.v, int(self.l), int(self.l))), nil
 	default:
 		return false, errNode(meta.ErrUnsupportedType, "", nil)
@@ -122,6 +152,9 @@ func (self Node) Int() (int, error) {
 }
 
 func (self Node) int() (int, error) {
+	if n := thrift.TypeSize(self.t); n > 0 && self.l < n {
+		return 0, errShortNode()
+	}
 	buf := rt.BytesFrom(self.v, int(self.l), int(self.l))
 	switch self.t {
 	case thrift.I08:
@@ -148,6 +181,9 @@ func (self Node) Float64() (float64, error) {
 func (self Node) float64() (float64, error) {
 	switch self.t {
 	case thrift.DOUBLE:
+		if self.l < 8 {
+			return 0, errShortNode()
+		}
 		return thrift.BinaryEncoding{}.DecodeDouble(rt.BytesFrom(self.v, int(self.l), int(self.l))), nil
 	default:
 		return 0, errNode(meta.ErrUnsupportedType, "", nil)
@@ -165,6 +201,9 @@ func (self Node) String() (string, error) {
 func (self Node) string() (string, error) {
 	switch self.t {
 	case thrift.STRING:
+		if _, ok := self.strSize(); !ok {
+			return "", errShortNode()
+		}
 		str := thrift.BinaryEncoding{}.DecodeString(rt.BytesFrom(self.v, int(self.l), int(self.l)))
 		// if self.d.IsBinary() {
 		// 	if !utf8.Valid(rt.Str2Mem(str)) {
@@ -188,6 +227,9 @@ func (self Node) Binary() ([]byte, error) {
 func (self Node) binary() ([]byte, error) {
 	switch self.t {
 	case thrift.STRING:
+		if _, ok := self.strSize(); !ok {
+			return nil, errShortNode()
+		}
 		return thrift.BinaryEncoding{}.DecodeBytes(rt.BytesFrom(self.v, int(self.l), int(self.l))), nil
 	default:
 		return nil, errNode(meta.ErrUnsupportedType, "", nil)
